@@ -8,6 +8,9 @@ CHECKS = {
  "C16": ("translation_validation", "property-based testing of flatten(): generated hierarchies validated against the reference interpreter's flat circuit (isomorphism), plus adversarial ':' names",
          "For generated hierarchies (leaves at every level, shared sub-modules, buses, pass-through ports, port-less sub-modules) flatten(m) must return only primitive / external instances, one per leaf device, with m's ports unchanged, and its package must be isomorphic to the reference interpreter's circuit of m; designs flatten may refuse (slices, concats, ':' in names) must raise or be right.",
          "Trusts the reference interpreter and package reader; sampled; the flatten-must-succeed class is decided from the elaborated hierarchy (all connections whole signals, no ':' in names)."),
+ "C18": ("exploration", "model-based (stateful) property testing: generated operation sequences on a Module / Bundle executed in lock step with a model dict; invariant checked after every step",
+         "Sequences of setattr / add / add(name=) / re-add / get and negative operations over a five-name alphabet with values of every attribute kind are applied to a Module or Bundle and to a model dict; after every step the namespace, every per-kind view, get(), attribute access, port listing and parent links must agree with the model, negative operations must raise without effect, the final module must export exactly the model's content, refuse additions after elaboration, and equal the class-style definition of the same content.",
+         "Fresh object per operation (no aliasing); reserved names through add() and post-'elaboration' additions to Bundles are recorded only; sampled histories of up to 30 steps."),
  "C19": ("exploration", "exhaustive enumeration of (n, unit cell, ordered series pair, call form) for Series / MosStack / Wrapper; oracle = documented chain evaluated by the reference interpreter, compared up to isomorphism",
          "Every n up to N, every unit cell of the family (primitives with 2-4 ports, external modules, modules with bus, bundle and oddly ordered ports), every ordered pair of distinct scalar ports given by name, by Signal or mixed, MosStack with default and given units and Wrapper of every unit are generated and exported; the package must be isomorphic to the documented chain / wrapper topology written as a spec; nser < 1 must raise.",
          "Complete for the stated bounds (N=6 quick, 12 thorough); identical unit instances make the comparison rely on the isomorphism search."),
